@@ -34,6 +34,13 @@ def _behaviour(spec, seed):
             kw[k] = tuple(kw[k])
     if kind == "random":
         return behave.RandomBehaviour(spec.get("seed", seed), **kw)
+    if kind == "faulty":
+        fault = kw.pop("fault")
+        return behave.FaultyBehaviour(spec.get("seed", seed), fault, **kw)
+    if kind == "agent":
+        agents = kw.pop("agents", None)
+        illegal = kw.pop("illegal", ())
+        return behave.AgentBehaviour(spec.get("seed", seed), agents, illegal, **kw)
     if kind == "table":
         table = {(a, b, c): v for a, b, c, v in spec["table"]}
         return behave.TableBehaviour(table, spec.get("seed", seed), **kw)
